@@ -120,6 +120,12 @@ def run(P, rep, tier):
     # ---- R7: the lines rebuilt between read and that check are exactly the bytes read ------------------
     r7 = rep.rule('C07-R7', 'the line splitting applied between read() and the newline check neither fabricates nor drops bytes '
                   '(the rules of C16 hold for split_lines)', reference=1)
+    for X in rr.CONTENT_IDS:
+        ske = res[X]['split_keep_ends']
+        if ske and ske != ['True']:
+            rep.violation(r7, 'rebuilt-without-ends:%s' % X, cf.loc(), 'section %s: the content is split with keep_ends=%s and put together again by '
+                          'the reader itself: a final line without newline gets one it never had, so the trailing-newline check cannot see a '
+                          'cut inside the last line' % (X, '/'.join(ske)), path=[cf.short])
     from sa.report import Report
     from sa.props import c16
     sub = Report('C16', tier, P)
